@@ -125,6 +125,9 @@ type extractor struct {
 	finalisers map[string]bool
 	// outside: durable file names seen in path expressions of other packages
 	outside map[string]bool
+	// wrapperOK: aghrenameio.pendingFile.{CloseReplace,Cleanup,Write} do nothing
+	// but delegate to renameio's CloseAtomicallyReplace, Cleanup and os.File.Write
+	wrapperOK [3]bool
 }
 
 type funcInfo struct {
@@ -214,6 +217,7 @@ func main() {
 	sort.Slice(x.pkgs, func(i, j int) bool { return x.pkgs[i].PkgPath < x.pkgs[j].PkgPath })
 	x.index()
 	x.collect()
+	x.wrapper()
 	x.write()
 }
 
@@ -993,6 +997,54 @@ func containsReturn(n ast.Node) (found bool) {
 	return found
 }
 
+// wrapper checks that the unix implementation of aghrenameio.PendingFile is a
+// pure delegation to renameio (the writer the model transcribes).
+func (x *extractor) wrapper() {
+	want := map[string]struct {
+		idx    int
+		callee string
+	}{
+		"CloseReplace": {0, "github.com/google/renameio/v2.PendingFile.CloseAtomicallyReplace"},
+		"Cleanup":      {1, "github.com/google/renameio/v2.PendingFile.Cleanup"},
+		"Write":        {2, "os.File.Write"},
+	}
+	found := 0
+	for fn, fi := range x.funcs {
+		if fn.Pkg() == nil || fn.Pkg().Path() != modPath+"/internal/aghrenameio" {
+			continue
+		}
+		name := fullName(fn)
+		const prefix = modPath + "/internal/aghrenameio.pendingFile."
+		if !strings.HasPrefix(name, prefix) {
+			continue
+		}
+		w, ok := want[strings.TrimPrefix(name, prefix)]
+		if !ok {
+			x.fatal(fi.decl.Pos(), "unexpected method %s of the pending-file wrapper", name)
+		}
+		found++
+		body := fi.decl.Body
+		if body == nil || len(body.List) != 1 {
+			continue
+		}
+		rs, isRet := body.List[0].(*ast.ReturnStmt)
+		if !isRet || len(rs.Results) != 1 {
+			continue
+		}
+		call, isCall := ast.Unparen(rs.Results[0]).(*ast.CallExpr)
+		if !isCall {
+			continue
+		}
+		if c := calleeOf(fi.pkg.TypesInfo, call); c != nil && fullName(c) == w.callee {
+			x.wrapperOK[w.idx] = true
+		}
+	}
+	if found != 3 {
+		fmt.Fprintf(os.Stderr, "extract c14: aghrenameio.pendingFile: found %d of the 3 wrapper methods\n", found)
+		os.Exit(3)
+	}
+}
+
 // ---------------------------------------------------------------- output
 
 func (x *extractor) write() {
@@ -1024,7 +1076,11 @@ func (x *extractor) write() {
 			s.ID, s.Op, s.Prov, s.Derived, s.Fin, comma, s.Pos, shortCallee(s.Callee), oneLine(s.Path),
 			strings.TrimPrefix(s.Func, modPath+"/internal/"), s.ProvTxt)
 	}
-	sb.WriteString("]\n\nend AGH.C14.Gen\n")
+	sb.WriteString("]\n\n")
+	sb.WriteString("/-- aghrenameio.pendingFile.CloseReplace / Cleanup / Write are single delegations to\n")
+	sb.WriteString("renameio's CloseAtomicallyReplace / Cleanup and os.File.Write -/\n")
+	fmt.Fprintf(&sb, "def wrapperDelegates : List Bool := [%v, %v, %v]\n", x.wrapperOK[0], x.wrapperOK[1], x.wrapperOK[2])
+	sb.WriteString("\nend AGH.C14.Gen\n")
 	must(os.WriteFile(genPath, []byte(sb.String()), 0o644))
 
 	// facts.json
@@ -1059,7 +1115,7 @@ func (x *extractor) write() {
 			}
 		}
 	}
-	out := map[string]any{"summary": sum, "sites": x.sites, "repo": x.repo}
+	out := map[string]any{"summary": sum, "sites": x.sites, "repo": x.repo, "wrapper_delegates": x.wrapperOK}
 	b, err := json.MarshalIndent(out, "", " ")
 	must(err)
 	factsDir := filepath.Join(verif, "build/C14")
